@@ -2119,6 +2119,12 @@ func emit(id string, c caseT, st *hx.Stats) string {
 	} else {
 		l.Bool(false)
 	}
+	// through the app layer: which entry point and options the handler uses (the model folds them itself)
+	if c.ViaApp && c.Mode == 0 {
+		l.Bool(true).Nat(c.AppVia)
+	} else {
+		l.Bool(false)
+	}
 	in := l.String()
 
 	secrets := secretsOf(root, red)
